@@ -184,6 +184,10 @@ class Gen(object):
             op = r.choice(['+', '-', '*', 'div', 'mod', '+', '-'])
             self.f('arith:' + op)
             a, b = self.e_num(depth + 1), self.e_num(depth + 1)
+            if op in ('div', 'mod') and a[-1] in '0123456789.)]' and r.random() < 0.2:
+                # no white space is needed between a number (or a bracket) and an operator name
+                self.f('operator-name-without-space')
+                return '%s%s %s' % (a, op, b)
             return '%s %s %s' % (a, op, b) if r.random() < 0.7 else '(%s) %s (%s)' % (a, op, b)
         if k < 0.47:
             self.f('neg')
